@@ -510,4 +510,453 @@ theorem bodylimit_fixed_on_witnesses :
 
 end body
 
+/-! ## basicauth -/
+section auth
+open Auth
+
+/-- `strings.Cut` splits at the first separator -/
+theorem lemma_cut_some (sep : Char) (s a b : Bytes) :
+    cut sep s = some (a, b) ↔ s = a ++ sep :: b ∧ sep ∉ a := by
+  induction s generalizing a b with
+  | nil => simp [cut]
+  | cons c rest ih =>
+    unfold cut
+    by_cases hc : c = sep
+    · subst hc
+      simp only [if_true]
+      constructor
+      · intro h
+        simp only [Option.some.injEq, Prod.mk.injEq] at h
+        obtain ⟨rfl, rfl⟩ := h
+        simp
+      · rintro ⟨h1, h2⟩
+        cases a with
+        | nil => simp at h1; simp [h1]
+        | cons x a' =>
+          simp only [List.cons_append, List.cons.injEq] at h1
+          exact absurd (by simp [h1.1]) h2
+    · simp only [hc, if_false]
+      cases hr : cut sep rest with
+      | none =>
+        simp only
+        constructor
+        · intro h; cases h
+        · rintro ⟨h1, h2⟩
+          cases a with
+          | nil => simp at h1; exact absurd h1.1 hc
+          | cons x a' =>
+            simp only [List.cons_append, List.cons.injEq] at h1
+            have := (ih a' b).mpr ⟨h1.2, fun h => h2 (List.mem_cons_of_mem _ h)⟩
+            rw [hr] at this; cases this
+      | some p =>
+        obtain ⟨a0, b0⟩ := p
+        simp only [Option.some.injEq, Prod.mk.injEq]
+        have h0 := (ih a0 b0).mp hr
+        constructor
+        · rintro ⟨rfl, rfl⟩
+          refine ⟨by rw [h0.1]; simp, ?_⟩
+          intro h
+          rcases List.mem_cons.mp h with h | h
+          · exact hc h.symm
+          · exact h0.2 h
+        · rintro ⟨h1, h2⟩
+          cases a with
+          | nil => simp at h1; exact absurd h1.1 hc
+          | cons x a' =>
+            simp only [List.cons_append, List.cons.injEq] at h1
+            have := (ih a' b).mpr ⟨h1.2, fun h => h2 (List.mem_cons_of_mem _ h)⟩
+            rw [hr] at this
+            simp only [Option.some.injEq, Prod.mk.injEq] at this
+            exact ⟨by rw [h1.1, this.1], this.2⟩
+
+theorem lemma_lookup_mem (l : List (Bytes × Bytes)) (u p : Bytes) (h : l.lookup u = some p) : (u, p) ∈ l := by
+  induction l with
+  | nil => simp at h
+  | cons x rest ih =>
+    obtain ⟨k, v⟩ := x
+    simp only [List.lookup_cons] at h
+    by_cases hk : u == k
+    · simp only [hk] at h
+      have : u = k := by simpa using hk
+      simp at h
+      simp [this, h]
+    · simp only [hk] at h
+      exact List.mem_cons_of_mem _ (ih h)
+
+theorem lemma_mem_lookup (l : List (Bytes × Bytes)) (u p : Bytes) (hnd : (l.map (·.1)).Nodup)
+    (h : (u, p) ∈ l) : l.lookup u = some p := by
+  induction l with
+  | nil => simp at h
+  | cons x rest ih =>
+    obtain ⟨k, v⟩ := x
+    simp only [List.map_cons, List.nodup_cons] at hnd
+    simp only [List.lookup_cons]
+    rcases List.mem_cons.mp h with h' | h'
+    · simp only [Prod.mk.injEq] at h'
+      simp [h'.1, h'.2]
+    · have hne : ¬ (u == k) = true := by
+        intro hk
+        have hk' : u = k := by simpa using hk
+        exact hnd.1 (List.mem_map.mpr ⟨(u, p), h', by simp [hk']⟩)
+      simp only [hne]
+      exact ih hnd.2 h'
+
+/-- **The handler runs iff** the header is `Basic ` followed by text whose base64 decoding is
+    `u:p` for a configured pair `(u, p)` (`u` without colon: everything after the *first* colon is
+    the password). Every Authorization string, every user table. -/
+theorem auth_runs_iff (r : Req) (hnd : (r.users.map (·.1)).Nodup) :
+    (serve r).ran = true ↔
+      prefixBasic.isPrefixOf r.auth = true ∧
+      ∃ u p, r.dec = some (u ++ ':' :: p) ∧ ':' ∉ u ∧ (u, p) ∈ r.users := by
+  unfold serve
+  by_cases h1 : r.auth = []
+  · simp [h1, reject, prefixBasic]
+  · simp only [h1, if_false]
+    by_cases h2 : prefixBasic.isPrefixOf r.auth = true
+    · simp only [h2, not_true_eq_false, if_false, true_and]
+      cases hd : r.dec with
+      | none => simp [reject]
+      | some cred =>
+        simp only
+        cases hc : cut ':' cred with
+        | none =>
+          simp only [reject]
+          constructor
+          · intro h; cases h
+          · rintro ⟨u, p, he, hu, _⟩
+            have := (lemma_cut_some ':' cred u p).mpr ⟨by simpa using he, hu⟩
+            rw [hc] at this; cases this
+        | some up =>
+          obtain ⟨u0, p0⟩ := up
+          have h0 := (lemma_cut_some ':' cred u0 p0).mp hc
+          simp only
+          have huniq : ∀ u p, cred = u ++ ':' :: p → ':' ∉ u → u = u0 ∧ p = p0 := by
+            intro u p he hu
+            have := (lemma_cut_some ':' cred u p).mpr ⟨he, hu⟩
+            rw [hc] at this
+            simp only [Option.some.injEq, Prod.mk.injEq] at this
+            exact ⟨this.1.symm, this.2.symm⟩
+          cases hl : r.users.lookup u0 with
+          | none =>
+            simp only [reject]
+            constructor
+            · intro h; cases h
+            · rintro ⟨u, p, he, hu, hm⟩
+              obtain ⟨rfl, rfl⟩ := huniq u p (by simpa using he) hu
+              rw [lemma_mem_lookup _ _ _ hnd hm] at hl; cases hl
+          | some p' =>
+            simp only
+            by_cases hp : p0 = p'
+            · simp only [hp, if_true, true_iff]
+              exact ⟨u0, p', by rw [h0.1, hp], h0.2, lemma_lookup_mem _ _ _ hl⟩
+            · simp only [hp, if_false, reject]
+              constructor
+              · intro h; cases h
+              · rintro ⟨u, p, he, hu, hm⟩
+                obtain ⟨rfl, rfl⟩ := huniq u p (by simpa using he) hu
+                rw [lemma_mem_lookup _ _ _ hnd hm] at hl
+                simp only [Option.some.injEq] at hl
+                exact absurd hl hp
+    · simp [h2, reject]
+
+/-- the two outcomes of the middleware -/
+theorem lemma_auth_cases (r : Req) :
+    serve r = reject r ∨
+    ∃ u p, prefixBasic.isPrefixOf r.auth = true ∧ r.dec = some (u ++ ':' :: p) ∧ ':' ∉ u ∧
+      r.users.lookup u = some p ∧ serve r = { ran := true, status := 200, www := none, user := u } := by
+  unfold serve
+  by_cases h1 : r.auth = []
+  · simp [h1]
+  · simp only [h1, if_false]
+    by_cases h2 : prefixBasic.isPrefixOf r.auth = true
+    · simp only [h2, not_true_eq_false, if_false]
+      cases hd : r.dec with
+      | none => simp
+      | some cred =>
+        simp only
+        cases hc : cut ':' cred with
+        | none => simp
+        | some up =>
+          obtain ⟨u0, p0⟩ := up
+          have h0 := (lemma_cut_some ':' cred u0 p0).mp hc
+          simp only
+          cases hl : r.users.lookup u0 with
+          | none => simp
+          | some p' =>
+            simp only
+            by_cases hp : p0 = p'
+            · right
+              refine ⟨u0, p0, trivial, by rw [h0.1], h0.2, by rw [hp]; exact hl, by simp [hp]⟩
+            · simp [hp]
+    · simp [h2]
+
+/-- a refused request is answered 401 with the configured challenge, and the handler does not run -/
+theorem auth_reject_401 (r : Req) (h : (serve r).ran = false) :
+    (serve r).status = 401 ∧ (serve r).www = some ("Basic realm=\"".toList ++ r.realm ++ "\"".toList) := by
+  rcases lemma_auth_cases r with h1 | ⟨u, p, _, _, _, _, h1⟩
+  · rw [h1]; exact ⟨rfl, rfl⟩
+  · rw [h1] at h; cases h
+
+/-- an accepted request reaches the handler with the authenticated user name and no challenge -/
+theorem auth_accept_user (r : Req) (h : (serve r).ran = true) :
+    ∃ u p, r.dec = some (u ++ ':' :: p) ∧ ':' ∉ u ∧ r.users.lookup u = some p ∧
+      (serve r).user = u ∧ (serve r).www = none := by
+  rcases lemma_auth_cases r with h1 | ⟨u, p, _, hd, hu, hl, h1⟩
+  · rw [h1] at h; cases h
+  · exact ⟨u, p, hd, hu, hl, by rw [h1], by rw [h1]⟩
+
+theorem lemma_prefixBasic : prefixBasic = ['B', 'a', 's', 'i', 'c', ' '] := by decide
+
+/-- **The basic-auth gate meets its oracle** for every Authorization string and user table -/
+theorem auth_meets_spec (r : Req) (hnd : (r.users.map (·.1)).Nodup) : specOK r (serve r) = true := by
+  rcases lemma_auth_cases r with h1 | ⟨u, p, hpre, hd, hu, hl, h1⟩
+  · have hran : (serve r).ran = false := by rw [h1]; rfl
+    have hnv : wellFormedValid r = false := by
+      cases hv : wellFormedValid r with
+      | false => rfl
+      | true =>
+        exfalso
+        unfold wellFormedValid at hv
+        simp only [Bool.and_eq_true] at hv
+        obtain ⟨hp, hv2⟩ := hv
+        cases hdec : r.dec with
+        | none => simp [hdec] at hv2
+        | some cred =>
+          simp only [hdec, List.any_eq_true] at hv2
+          obtain ⟨⟨u, p⟩, hm, hpm⟩ := hv2
+          simp only [pairMatches, Bool.and_eq_true, Bool.not_eq_true', beq_iff_eq] at hpm
+          have : (serve r).ran = true := (auth_runs_iff r hnd).mpr
+            ⟨hp, u, p, by rw [hdec, hpm.2], by simpa using hpm.1, hm⟩
+          rw [hran] at this; cases this
+    rw [h1]
+    simp [specOK, reject, hnv]
+  · rw [h1]
+    have hm := lemma_lookup_mem _ _ _ hl
+    have hs : schemeBasic r.auth = true := by
+      obtain ⟨t, ht⟩ := List.isPrefixOf_iff_prefix.mp hpre
+      rw [← ht, lemma_prefixBasic]
+      simp only [schemeBasic, List.cons_append, List.take_succ_cons, List.take_zero, List.map_cons, List.map_nil]
+      decide
+    simp only [specOK, if_true, hs, Bool.true_and, hd, List.any_eq_true]
+    refine ⟨(u, p), hm, ?_⟩
+    simp [pairMatches, hu]
+
+/-- non-vacuity: a password with colons is accepted, a lower-case scheme is refused with 401 -/
+example : (serve { users := [("colon".toList, "a:b:c".toList)], realm := "R".toList,
+                   auth := "Basic Y29sb246YTpiOmM=".toList, dec := some "colon:a:b:c".toList }).ran = true := by decide
+example : (serve { users := [("admin".toList, "secret".toList)], realm := "R".toList,
+                   auth := "basic YWRtaW46c2VjcmV0".toList, dec := some "admin:secret".toList })
+          = { ran := false, status := 401, www := some "Basic realm=\"R\"".toList, user := [] } := by decide
+
+end auth
+
+/-! ## cors -/
+section cors
+open Cors
+
+/-- what the middleware emits as `Access-Control-Allow-Origin`, if anything -/
+theorem lemma_cors_acao (r : Req) (v : Bytes) (h : (serve r).acao = some v) :
+    r.origin ≠ [] ∧ allowedOrigin (config r.opts) r.origin r.funcSays ≠ [] ∧
+    v = (if ((config r.opts).allowCredentials && allowedOrigin (config r.opts) r.origin r.funcSays == star) = true
+         then r.origin else allowedOrigin (config r.opts) r.origin r.funcSays) := by
+  unfold serve serveWith at h
+  by_cases h1 : r.origin = []
+  · simp [h1, pass] at h
+  · simp only [h1, if_false] at h
+    by_cases h2 : allowedOrigin (config r.opts) r.origin r.funcSays = []
+    · simp [h2, pass] at h
+    · simp only [h2, if_false] at h
+      refine ⟨h1, h2, ?_⟩
+      by_cases h3 : r.isOptions = true
+      · simp only [h3, if_true, Option.some.injEq] at h
+        exact h.symm
+      · simp only [h3, Bool.false_eq_true, if_false, Option.some.injEq] at h
+        exact h.symm
+
+/-- the origin decision only ever yields the request's origin or `*`, the latter only under
+    allow-all, and nothing at all for an origin the configuration does not allow -/
+theorem lemma_allowedOrigin (cfg : Cfg) (origin : Bytes) (fs : Bool)
+    (h : allowedOrigin cfg origin fs ≠ []) :
+    configAllows cfg origin fs = true ∧ ¬ (cfg.allowCredentials = true ∧ origin = star) ∧
+    ((allowedOrigin cfg origin fs = star ∧ cfg.allowAll = true) ∨
+     (allowedOrigin cfg origin fs = origin ∧ cfg.allowAll = false)) := by
+  unfold allowedOrigin at h ⊢
+  unfold configAllows
+  by_cases hc : (cfg.allowCredentials && origin == star) = true
+  · simp [hc] at h
+  · simp only [hc, Bool.false_eq_true, if_false] at h ⊢
+    have hc' : ¬ (cfg.allowCredentials = true ∧ origin = star) := by
+      intro ⟨h1, h2⟩; simp [h1, h2] at hc
+    by_cases ha : cfg.allowAll = true
+    · simp [ha, hc']
+    · have ha' : cfg.allowAll = false := by simpa using ha
+      simp only [ha', Bool.false_eq_true, if_false, Bool.false_or] at h ⊢
+      by_cases hf : cfg.hasFunc = true
+      · simp only [hf, if_true] at h ⊢
+        by_cases hs : fs = true
+        · simp [hs, hc']
+        · simp [hs] at h
+      · have hf' : cfg.hasFunc = false := by simpa using hf
+        simp only [hf', Bool.false_eq_true, if_false] at h ⊢
+        by_cases hm : origin ∈ cfg.allowedOrigins
+        · simp [hm, hc']
+        · simp [hm] at h
+
+/-- **`Access-Control-Allow-Origin` only for allowed origins**: whenever the header is emitted, the
+    request carried an origin the configuration allows, and the value is that origin — or `*`, and
+    then only under allow-all without credentials. Every option list, every origin. -/
+theorem acao_only_allowed (r : Req) (v : Bytes) (h : (serve r).acao = some v) :
+    r.origin ≠ [] ∧ configAllows (config r.opts) r.origin r.funcSays = true ∧
+    (v = r.origin ∨ (v = star ∧ (config r.opts).allowAll = true ∧ (config r.opts).allowCredentials = false)) := by
+  obtain ⟨h1, h2, hv⟩ := lemma_cors_acao r v h
+  obtain ⟨hA, hB, hC⟩ := lemma_allowedOrigin _ _ _ h2
+  refine ⟨h1, hA, ?_⟩
+  rcases hC with ⟨hs, hall⟩ | ⟨ho, _⟩
+  · by_cases hcr : (config r.opts).allowCredentials = true
+    · left; rw [hv]; simp [hcr, hs]
+    · right
+      have hcr' : (config r.opts).allowCredentials = false := by simpa using hcr
+      refine ⟨?_, hall, hcr'⟩
+      rw [hv]; simp [hcr', hs]
+  · left
+    rw [hv, ho]
+    split <;> rfl
+
+/-- **never `*` together with credentials** -/
+theorem never_star_with_credentials (r : Req) :
+    ¬ ((serve r).acao = some star ∧ (serve r).acac = some strue) := by
+  rintro ⟨h1, h2⟩
+  obtain ⟨ho, ha, hv⟩ := lemma_cors_acao r star h1
+  obtain ⟨_, hB, hC⟩ := lemma_allowedOrigin _ _ _ ha
+  have hcred : (config r.opts).allowCredentials = true := by
+    unfold serve serveWith at h2
+    simp only [ho, if_false, ha] at h2
+    by_cases hcr : (config r.opts).allowCredentials = true
+    · exact hcr
+    · exfalso
+      have hcr' : (config r.opts).allowCredentials = false := by simpa using hcr
+      by_cases h3 : r.isOptions = true
+      · simp [h3, hcr'] at h2
+      · simp [h3, hcr'] at h2
+  have hne : r.origin ≠ star := fun h => hB ⟨hcred, h⟩
+  rcases hC with ⟨hs, _⟩ | ⟨hoo, _⟩
+  · simp [hcred, hs] at hv
+    exact hne hv.symm
+  · rw [hoo] at hv
+    have : star = r.origin := by rw [hv]; split <;> rfl
+    exact hne this.symm
+
+/-- **The CORS gate meets its oracle** for every option list and request -/
+theorem cors_meets_spec (r : Req) : specOK (config r.opts) r (serve r) = true := by
+  unfold specOK
+  have h2 := never_star_with_credentials r
+  have h3 : (!((serve r).acao == some star && (serve r).acac == some strue)) = true := by
+    simp only [Bool.not_eq_true', Bool.and_eq_false_iff, beq_eq_false_iff_ne, ne_eq]
+    by_cases h : (serve r).acao = some star
+    · right; exact fun h' => h2 ⟨h, h'⟩
+    · left; exact h
+  rw [h3, Bool.and_true]
+  cases ha : (serve r).acao with
+  | none => rfl
+  | some v =>
+    obtain ⟨hA, hB, hC⟩ := acao_only_allowed r v ha
+    simp only [hB, Bool.and_true, Bool.and_eq_true, bne_iff_ne, ne_eq, Bool.or_eq_true, beq_iff_eq]
+    refine ⟨hA, ?_⟩
+    rcases hC with h | ⟨h, h', _⟩
+    · left; exact h
+    · right; exact ⟨h, h'⟩
+
+/-- K17b: as shipped, allow-all + credentials reflected the literal request header `Origin: *` -/
+theorem cors_asis_witness :
+    (serveAsIs { opts := [.allowAll true, .credentials true], origin := star, funcSays := false, isOptions := false }).acao = some star ∧
+    (serveAsIs { opts := [.allowAll true, .credentials true], origin := star, funcSays := false, isOptions := false }).acac = some strue ∧
+    specOK (config [.allowAll true, .credentials true])
+      { opts := [.allowAll true, .credentials true], origin := star, funcSays := false, isOptions := false }
+      (serveAsIs { opts := [.allowAll true, .credentials true], origin := star, funcSays := false, isOptions := false }) = false := by
+  decide
+
+/-- non-vacuity: a listed origin is reflected with credentials; allow-all without credentials says `*`;
+    `WithAllowedOrigins` after `WithAllowAllOrigins(true)` switches allow-all off again -/
+example : (serve { opts := [.origins ["https://a.example".toList], .credentials true], origin := "https://a.example".toList,
+                   funcSays := false, isOptions := false }).acao = some "https://a.example".toList := by decide
+example : (serve { opts := [.allowAll true], origin := "https://a.example".toList, funcSays := false, isOptions := true }).acao
+          = some star := by decide
+example : (serve { opts := [.allowAll true, .origins []], origin := "https://a.example".toList, funcSays := false,
+                   isOptions := false }).acao = none := by decide
+
+end cors
+
+/-! ## methodoverride -/
+section method
+open Method
+
+/-- the conditions under which the method is rewritten: the request method is an allowed source,
+    the CSRF requirement (if configured) is met, an override is requested (header first, else the
+    query parameter), its normalised value is an allowed target, and the body requirement holds -/
+def Overrides (r : Req) : Prop :=
+  (((config r.opts).onlyOn.map (app r.upper)).contains (app r.upper r.method) = true) ∧
+  ¬ ((config r.opts).requireCSRF = true ∧ ¬ r.csrfVerified = true) ∧
+  requested (config r.opts) r ≠ [] ∧
+  (((config r.opts).allow.map (app r.upper)).contains (app r.norm (requested (config r.opts) r)) = true) ∧
+  ¬ ((config r.opts).respectBody = true ∧ r.clZero = true)
+
+/-- **The method is rewritten iff** `Overrides` holds, and then to the normalised requested value;
+    otherwise the handler sees the request's own method. Every option list, every request. -/
+theorem override_iff (r : Req) :
+    (Overrides r → serve r = { ran := true, seen := app r.norm (requested (config r.opts) r), original := r.method }) ∧
+    (¬ Overrides r → serve r = { ran := true, seen := r.method, original := r.method }) := by
+  unfold Overrides serve
+  simp only []
+  generalize ((config r.opts).onlyOn.map (app r.upper)).contains (app r.upper r.method) = A
+  generalize ((config r.opts).allow.map (app r.upper)).contains (app r.norm (requested (config r.opts) r)) = B
+  generalize (config r.opts).requireCSRF = C
+  generalize (config r.opts).respectBody = D
+  generalize r.csrfVerified = E
+  generalize r.clZero = F
+  by_cases h3 : requested (config r.opts) r = [] <;>
+    cases A <;> cases B <;> cases C <;> cases D <;> cases E <;> cases F <;> simp [h3]
+
+/-- **only from an allowed source to an allowed target**: if the handler sees another method than the
+    request's, the request method is in `onlyOn` and the method seen is in `allow` (upper-cased) -/
+theorem override_only_allowed (r : Req) (h : (serve r).seen ≠ r.method) :
+    ((config r.opts).onlyOn.map (app r.upper)).contains (app r.upper r.method) = true ∧
+    ((config r.opts).allow.map (app r.upper)).contains (serve r).seen = true ∧
+    (serve r).seen = app r.norm (requested (config r.opts) r) ∧ (serve r).original = r.method := by
+  by_cases ho : Overrides r
+  · rw [(override_iff r).1 ho]
+    exact ⟨ho.1, ho.2.2.2.1, rfl, rfl⟩
+  · rw [(override_iff r).2 ho] at h
+    exact absurd rfl h
+
+/-- the handler always runs, and `OriginalMethod` reports the request's own method -/
+theorem override_keeps_original (r : Req) : (serve r).ran = true ∧ (serve r).original = r.method := by
+  by_cases ho : Overrides r
+  · rw [(override_iff r).1 ho]; exact ⟨rfl, rfl⟩
+  · rw [(override_iff r).2 ho]; exact ⟨rfl, rfl⟩
+
+/-- **The method-override gate meets its oracle** -/
+theorem method_meets_spec (r : Req) : specOK (config r.opts) r (serve r) = true := by
+  unfold specOK
+  have h1 := (override_keeps_original r).1
+  by_cases h : (serve r).seen = r.method
+  · simp [h1, h]
+  · obtain ⟨ha, hb, _, _⟩ := override_only_allowed r h
+    simp only [h1, Bool.true_and, Bool.or_eq_true, beq_iff_eq, Bool.and_eq_true]
+    right; exact ⟨ha, hb⟩
+
+/-- non-vacuity: default configuration, POST with `X-HTTP-Method-Override: delete ` is rewritten to
+    DELETE; the same header on a GET is ignored; TRACE is not an allowed target -/
+example : serve { opts := [], method := "POST".toList, csrfVerified := false, clZero := true,
+                  hdr := [("X-HTTP-Method-Override".toList, "delete ".toList)], qry := [], upper := [],
+                  norm := [("delete ".toList, "DELETE".toList)] }
+          = { ran := true, seen := "DELETE".toList, original := "POST".toList } := by decide
+example : (serve { opts := [], method := "GET".toList, csrfVerified := false, clZero := true,
+                   hdr := [("X-HTTP-Method-Override".toList, "DELETE".toList)], qry := [], upper := [], norm := [] }).seen
+          = "GET".toList := by decide
+example : (serve { opts := [], method := "POST".toList, csrfVerified := false, clZero := true,
+                   hdr := [("X-HTTP-Method-Override".toList, "TRACE".toList)], qry := [], upper := [], norm := [] }).seen
+          = "POST".toList := by decide
+
+end method
+
 end Rivaas.C17
